@@ -157,6 +157,19 @@ def judge(c, r):
         rates = np.asarray(m.eventRateVector(xs[-1], ts[-1]), float).ravel()
         if np.any(rates != 0) and "Illegal jump" not in r["printed"]:
             return ("stopped-early", "returned at t=%r < T=%r although rates %s and no illegal step" % (ts[-1], c["T"], rates.tolist()))
+        # an exact path that stopped on an "illegal" step: the step the last first-reaction call chose must really leave the
+        # limits (a state may sit exactly ON a declared limit)
+        last = r["calls"][-1] if r.get("calls") else None
+        if c["exact"] and not d["odes"] and last and last.get("kind") == "FR" and len(last.get("clocks", [])) == nE \
+                and last.get("x") == [float(v) for v in xs[-1]]:
+            i = int(np.argmin(last["clocks"]))
+            if np.isfinite(last["clocks"][i]):
+                xn = xs[-1] + V[:, i]
+                inside = all((lo is None or xn[k] >= lo) and (hi is None or xn[k] <= hi) for k, (lo, hi) in enumerate(lims))
+                if inside:
+                    return ("legal-step-rejected", "the path stopped at t=%r in state %s: the event that was due (event %d, clocks %s) leads to "
+                            "%s, which is within the limits %s" % (ts[-1], xs[-1].tolist(), i, [round(v, 4) for v in last["clocks"]],
+                                                                   xn.tolist(), lims))
     return None
 
 
